@@ -56,6 +56,7 @@ fn main() {
         eprintln!("usage: momsim check <prop> <quick|thorough> | worker ... | replay <file> | selftest");
         std::process::exit(2);
     }
+    util::init_out();
     let installed = hashkeys::install();
     if hashkeys::SIM_KEYS && !installed {
         eprintln!("HARNESS: could not install the hash-key random source");
